@@ -390,12 +390,178 @@ class GLOG(Fmt):
         return "m.log", text, exp, {}
 
 
-FORMATS = [XYZ(), EXTXYZ(), PDB(), MOL2(), SDF(), GRO(), CRD(), VASP(), CHGCAR(), LOCPOT(), CUBE(), GJF(), FCIDUMP(), GLOG()]
+class FCHKW(Fmt):
+    name = "fchk"
+    space = [("natom", [2, 1, 3]), ("basis", ["sp", "+d6", "+d5", "+f10", "+f7", "SP-shell", "+g9"]), ("mo", ["restricted", "unrestricted", "rohf"]), ("command", ["SP", "FOpt", "Freq", "Scan", "Force"]),
+             ("matrices", ["none", "density", "density+spin", "hessian", "polarizability", "all"]), ("vectors", ["none", "mulliken", "gradient", "dipole", "quadrupole", "masses", "micopt", "all"]),
+             ("energy", [True, False]), ("ecp", [False, True]), T(9)]
+
+    def make(self, c, seed):
+        from props import common
+        from ref import gto, wfwriters
+
+        n = c["natom"]
+        z = [8, 1, 6][:n]
+        xyz = np.array([[0.0, 0.0, 0.25], [0.0, 1.5, -0.75], [1.25, -0.5, 0.5]])[:n]
+        shells = [(0, 0, [5.5, 0.75], [0.6, 0.5], None), (0, 1, [1.25], [1.0], None), ((n - 1), 0, [0.5], [1.0], None)]
+        extra = {"sp": [], "+d6": [(0, 2, [0.875], [1.0], None)], "+d5": [(0, -2, [0.875], [1.0], None)], "+f10": [((n - 1), 3, [1.125], [1.0], None)], "+f7": [((n - 1), -3, [1.125], [1.0], None)],
+                 "SP-shell": [(0, -1, [2.5, 0.625], [0.4, 0.7], [0.3, 0.8])], "+g9": [(0, -4, [1.5], [1.0], None)]}[c["basis"]]
+        shells = shells + extra
+        fn = wfwriters.fchk_functions(shells)
+        nb = gto.nbasis(fn)
+        ca = common.int_matrix(nb, nb, seed).T * 0.125  # rows = orbitals
+        nal, nbe = (2, 2) if c["mo"] == "restricted" else (2, 1)
+        nal, nbe = min(nal, nb), min(nbe, nb)
+        model = dict(title=c["title"], command=c["command"], lot="RHF" if c["mo"] == "restricted" else "UHF", basis="GEN", z=z, cores=[zi - (2.0 if c["ecp"] and i == 0 else 0.0) for i, zi in enumerate(z)],
+                     xyz=xyz, shells=shells, nalpha=nal, nbeta=nbe, ea=-1.0 + 0.25 * np.arange(nb), ca=ca)
+        if c["mo"] == "unrestricted":
+            model["eb"] = -0.9 + 0.25 * np.arange(nb)
+            model["cb"] = common.int_matrix(nb, nb, seed + 3).T * 0.125
+        if c["energy"]:
+            model["energy"] = -76.0625
+        mats, vecs = c["matrices"], c["vectors"]
+        if mats in ("density", "density+spin", "all"):
+            model["density"] = sym2(nb, seed)
+        if mats in ("density+spin", "all"):
+            model["spin_density"] = sym2(nb, seed + 1, 0.5)
+        if mats in ("hessian", "all"):
+            model["hessian"] = sym2(3 * n, seed + 2, 0.25)
+        if mats in ("polarizability", "all"):
+            model["polarizability"] = sym2(3, seed + 4, 4.0)
+        if vecs in ("mulliken", "all"):
+            model["mulliken"] = [round(-0.6 + 0.55 * i, 6) for i in range(n)]
+        if vecs in ("gradient", "all"):
+            model["gradient"] = np.arange(3.0 * n).reshape(n, 3) * 0.015625 - 0.125
+        if vecs in ("dipole", "all"):
+            model["dipole"] = [0.125, -0.75, 1.5]
+        if vecs in ("quadrupole", "all"):
+            model["quadrupole"] = [1.0, 2.0, 3.0, 4.0, 5.0, 6.0]  # XX YY ZZ XY XZ YZ
+        if vecs in ("masses", "all"):
+            model["masses_amu"] = [15.99491, 1.00783, 12.0][:n]
+        if vecs in ("micopt", "all"):
+            model["micopt"] = [0, -2, 0][:n]
+        text = wfwriters.fchk(model)
+        bv = gto.eval_basis(fn, wfwriters.FCHK_CONV, xyz, gto.PROBE_POINTS[:8])
+        truth = ca @ bv if c["mo"] != "unrestricted" else np.vstack([ca @ bv, model["cb"] @ bv])
+        exp = [("atnums", z, None), ("atcorenums", model["cores"], 1e-12), ("atcoords", xyz, 1e-12), ("title", c["title"], None), ("@orbital-values", truth, 1e-7),
+               ("mo.energies", list(model["ea"]) + (list(model["eb"]) if "eb" in model else []), 1e-12),
+               ("run_type", {"SP": "energy", "FOpt": "opt", "Freq": "freq", "Scan": "scan", "Force": "energy_force"}[c["command"]], None), ("lot", model["lot"].lower(), None), ("obasis_name", "gen", None)]
+        if c["mo"] == "unrestricted":
+            occs = [1.0] * nal + [0.0] * (nb - nal) + [1.0] * nbe + [0.0] * (nb - nbe)
+        else:
+            occs = [2.0] * nbe + [1.0] * (nal - nbe) + [0.0] * (nb - nal)
+        exp.append(("mo.occs", occs, 0))
+        if c["energy"]:
+            exp.append(("energy", model["energy"], 1e-12))
+        for key, attr in (("density", "one_rdms.scf"), ("spin_density", "one_rdms.scf_spin"), ("hessian", "athessian"), ("polarizability", "extra.polarizability_tensor")):
+            if key in model and not (key == "density" and c["mo"] == "rohf"):
+                exp.append((attr, np.array([[float(f"{v:.8E}") for v in row] for row in model[key]]), 1e-12))
+        if "mulliken" in model:
+            exp.append(("atcharges.mulliken", model["mulliken"], 1e-12))
+        if "gradient" in model:
+            exp.append(("atgradient", model["gradient"], 1e-12))
+        if "dipole" in model:
+            exp.append(("moments.(1, 'c')", model["dipole"], 1e-12))
+        if "quadrupole" in model:
+            q = model["quadrupole"]
+            exp.append(("moments.(2, 'c')", [q[0], q[3], q[4], q[1], q[5], q[2]], 1e-12))  # xx xy xz yy yz zz
+        if "masses_amu" in model:
+            exp.append(("atmasses", np.array(model["masses_amu"]) * units.amu, 1e-4))
+        if "micopt" in model:
+            exp.append(("atfrozen", [v == -2 for v in model["micopt"]], None))
+        return "m.fchk", text, exp, {}
+
+
+class WFNW(Fmt):
+    name = "wfn"
+    space = [("natom", [2, 1, 3]), ("basis", ["sp", "+d", "+f", "+g"]), ("layout", ["by-primitive", "by-type"]), ("mo", ["restricted", "unrestricted-mospin", "restricted-mospin"]), ("exponents", ["D", "E"]),
+             ("coords", ["small", "negative-touching"]), T(10)]
+    container = "wfn"
+
+    def model(self, c, seed):
+        from props import common
+
+        n = c["natom"]
+        z = [8, 1, 6][:n]
+        xyz = np.array([[0.0, 0.0, 0.25], [0.0, 1.5, -0.75], [1.25, -0.5, 0.5]])[:n]
+        if c["coords"] == "negative-touching":
+            xyz = xyz - np.array([10.5, 20.25, 30.125])  # F12.8 fields filled to the sign
+        shells = [(0, 0, [5.5, 0.75]), (0, 1, [1.25, 0.5]), (n - 1, 0, [0.5])] + {"sp": [], "+d": [(0, 2, [0.875, 0.375])], "+f": [(n - 1, 3, [1.125])], "+g": [(0, 4, [1.5])]}[c["basis"]]
+        start = {0: 1, 1: 2, 2: 5, 3: 11, 4: 21}
+        count = {0: 1, 1: 3, 2: 6, 3: 10, 4: 15}
+        prims = []
+        for ic, l, exps in shells:
+            codes = list(range(start[l], start[l] + count[l]))
+            if c["layout"] == "by-primitive":
+                for e in exps:
+                    prims += [(ic, code, e) for code in codes]
+            else:
+                for code in codes:
+                    prims += [(ic, code, e) for e in exps]
+        npr = len(prims)
+        norb = min(4, npr)
+        coefs = common.int_matrix(norb, npr, seed) * 0.0625
+        if c["mo"] == "unrestricted-mospin":
+            occ = [1.0, 1.0, 1.0, 0.0][:norb]
+            spin = [1, 1, 2, 2][:norb]
+            en = [-1.5, -0.5, -1.25, 0.25][:norb]
+        else:
+            occ = [2.0, 2.0, 1.0, 0.0][:norb]
+            spin = [3] * norb if c["mo"] == "restricted-mospin" else None
+            en = [-1.5, -1.0, -0.5, 0.25][:norb]
+        mos = [(i + 1, occ[i], en[i], coefs[i].tolist()) for i in range(norb)]
+        return z, xyz, prims, mos, spin
+
+    def make(self, c, seed):
+        from ref import gto, wfwriters
+
+        z, xyz, prims, mos, spin = self.model(c, seed)
+        text = wfwriters.wfn(c["title"], z, xyz, prims, mos, -76.0625, 2.00125, spin, exp_d=c["exponents"] == "D")
+        truth = wfwriters.eval_primitive_orbitals(xyz, prims, [(m[0], m[1], m[2], [float(f"{v:.8E}") for v in m[3]]) for m in mos], gto.PROBE_POINTS[:8] + xyz[0])
+        exp = [("atnums", z, None), ("atcoords", xyz, 1e-12), ("title", c["title"], None), ("@orbital-values+origin", (truth, xyz[0]), 1e-9), ("mo.occs", [m[1] for m in mos], 1e-12),
+               ("mo.energies", [m[2] for m in mos], 1e-12), ("energy", -76.0625, 1e-12), ("extra.virial_ratio", 2.00125, 1e-12)]
+        if spin is not None:
+            exp.append(("extra.mo_spin", spin, None))
+            exp.append(("mo.kind", "unrestricted" if c["mo"] == "unrestricted-mospin" else "restricted", None))
+        return "m.wfn", text, exp, {}
+
+
+class WFXW(WFNW):
+    name = "wfx"
+    space = [a for a in WFNW.space if a[0] not in ("exponents", "mo")] + [("mo", ["restricted", "unrestricted"]), ("gradient", [False, True])]
+
+    def make(self, c, seed):
+        from ref import gto, wfwriters
+
+        c2 = dict(c, mo="unrestricted-mospin" if c["mo"] == "unrestricted" else "restricted", exponents="E")
+        z, xyz, prims, mos, _ = self.model(c2, seed)
+        norb = len(mos)
+        if c["mo"] == "unrestricted":
+            spins = (["Alpha", "Alpha", "Beta", "Beta"])[:norb]
+            nal, nbe = 2, 1
+        else:
+            spins = ["Alpha and Beta"] * norb
+            nal, nbe = 3, 2
+        grad = np.arange(3.0 * len(z)).reshape(-1, 3) * 0.015625 - 0.125 if c["gradient"] else None
+        text = wfwriters.wfx(c["title"], z, [float(v) for v in z], xyz, prims, mos, spins, -76.0625, 2.00125, nal, nbe, 0.0, grad)
+        truth = wfwriters.eval_primitive_orbitals(xyz, prims, mos, gto.PROBE_POINTS[:8] + xyz[0])
+        exp = [("atnums", z, None), ("atcoords", xyz, 1e-12), ("title", c["title"], None), ("@orbital-values+origin", (truth, xyz[0]), 1e-9), ("mo.occs", [m[1] for m in mos], 1e-12),
+               ("mo.energies", [m[2] for m in mos], 1e-12), ("energy", -76.0625, 1e-12), ("extra.virial_ratio", 2.00125, 1e-12), ("mo.kind", c["mo"], None)]
+        if grad is not None:
+            exp.append(("atgradient", grad, 1e-12))
+        return "m.wfx", text, exp, {}
+
+
+FORMATS = [FCHKW(), WFNW(), WFXW(), XYZ(), EXTXYZ(), PDB(), MOL2(), SDF(), GRO(), CRD(), VASP(), CHGCAR(), LOCPOT(), CUBE(), GJF(), FCIDUMP(), GLOG()]
 
 
 def lookup(obj, path):
     cur = obj
-    for part in path.replace("[:, :2]", "").split("."):
+    parts = path.replace("[:, :2]", "").split(".")
+    if "(" in path:  # keys like moments.(1, 'c')
+        head, _, key = path.partition(".(")
+        parts = [*head.split("."), eval("(" + key)]  # noqa: S307 - harness-internal literal
+    for part in parts:
         if isinstance(cur, dict):
             cur = cur.get(part)
         else:
@@ -408,6 +574,25 @@ def lookup(obj, path):
 def compare(obj, exp):
     problems = []
     for path, want, tol in exp:
+        if path.startswith("@orbital-values"):
+            from props import common as _common
+            from ref import gto as _gto
+
+            pts = _gto.PROBE_POINTS[:8]
+            if path.endswith("+origin"):
+                want, origin = want
+                pts = pts + origin
+            try:
+                bv = _gto.eval_basis(_common.plain(obj.obasis), obj.obasis.conventions, obj.atcoords, pts)
+                got = obj.mo.coeffs.T @ bv
+            except Exception as exc:  # noqa: BLE001
+                problems.append((path, f"orbitals of the loaded object cannot be evaluated: {exc!r}"))
+                continue
+            scale = np.abs(want).max() + 1e-300
+            if got.shape != want.shape or np.abs(got - want).max() > tol * scale:
+                i, p = (0, 0) if got.shape != want.shape else np.unravel_index(np.abs(got - want).argmax(), want.shape)
+                problems.append(("orbital-values", f"orbital {i} at probe point {p}: the file denotes {want[i, p] if got.shape == want.shape else want.shape!r}, the loaded object {got[i, p] if got.shape == want.shape else got.shape!r}"))
+            continue
         got = lookup(obj, path)
         if got is None:
             problems.append((path, f"{path}: expected {short(want)}, loaded None"))
@@ -486,7 +671,7 @@ def worker(chunk, seed, tier):
             # the same through load_many (first frame) where available
             from iodata.api import FORMAT_MODULES
 
-            if hasattr(FORMAT_MODULES[name], "load_many") and not problems:
+            if hasattr(FORMAT_MODULES[name], "load_many") and not problems and name != "fchk":  # a single-point FCHK file holds no trajectory
                 with warnings.catch_warnings():
                     warnings.simplefilter("ignore")
                     try:
@@ -559,7 +744,7 @@ def run(ctx):
     ctx.cov.update(dbe_k=k, writer_formats=[f.name for f in FORMATS], writer_cases=len(jobs))
     ctx.exhaustive = True
     ctx.rule = (
-        f"(1) independent writers (ref/writers.py, ref/vendors.py) for {len(FORMATS)} formats: deviation-bounded enumeration k<={k} over atom counts crossing each counter's width, coordinates that fill their columns so that "
+        f"(1) independent writers (ref/writers.py, ref/wfwriters.py) for {len(FORMATS)} formats (for FCHK, WFN and WFX the orbitals denoted by the file are evaluated from the file's own tables and compared with the loaded object through ref/gto.py): deviation-bounded enumeration k<={k} over atom counts crossing each counter's width, coordinates that fill their columns so that "
         "neighbouring fields touch, negative/wide values, all bond types, optional sections, block/line-length boundaries (5-column Gaussian-log blocks, ragged cube/VASP grid lines), direct/Cartesian/selective VASP modes, "
         "header variants; every attribute of the loaded object is compared with the model converted by hand-typed CODATA factors. (2) metamorphic token substitution on generated and corpus files of all 25 format "
         "modules (see coverage.metamorphic): every numeric token is replaced, one at a time, by a distinct value and by a column-filling variant; exactly the attribute elements that held the old value may change, "
